@@ -1,6 +1,7 @@
 package h
 
 import (
+	"encoding/json"
 	"fmt"
 
 	"github.com/mlange-42/arche/ecs"
@@ -246,7 +247,50 @@ func caseBig(c *Ctx) {
 	verify("after setup")
 	rounds := 3 + R.Intn(3)
 	for r := 0; r < rounds && !failed; r++ {
-		switch op := R.Intn(7); op {
+		op := R.Intn(8)
+		if c.Prop == "C17" && r%2 == 1 {
+			op = 7
+		}
+		switch op {
+		case 7: // the handle state goes through a dump (every second time as JSON) into a new world
+			d := w.DumpEntities()
+			if R.Chance(0.5) {
+				js, err := json.Marshal(&d)
+				var d2 ecs.EntityDump
+				if err == nil {
+					err = json.Unmarshal(js, &d2)
+				}
+				if err != nil {
+					fail("big.dump", "JSON round trip of the dump failed: %v", err)
+					break
+				}
+				d = d2
+			}
+			w2 := ecs.NewWorld(conf)
+			w2.LoadEntities(&d)
+			for e := range model {
+				if !w2.Alive(e) {
+					fail("big.dump", "%v is alive in the dumped world and dead in the loaded one", e)
+					break
+				}
+			}
+			for _, e := range dead {
+				if w2.Alive(e) {
+					fail("big.dump", "%v is dead in the dumped world and alive in the loaded one", e)
+					break
+				}
+			}
+			k := 50 + R.Intn(400)
+			for i := 0; i < k && !failed; i++ {
+				e1, e2 := w.NewEntity(idA), w2.NewEntity()
+				serial++
+				(*bigA)(w.Get(e1, idA)).V = serial
+				model[e1] = &bigEnt{a: serial}
+				if e1 != e2 {
+					fail("big.dump", "creation %d after the load: the dumped world hands out %v, the loaded one %v", i, e1, e2)
+				}
+			}
+			log = append(log, fmt.Sprintf("dump/load, %d creations", k))
 		case 0, 1: // single removals: the last row moves into the hole
 			vs := pickLive(50 + R.Intn(300))
 			for _, e := range vs {
